@@ -1,6 +1,7 @@
 package main
 
 import (
+	"regexp"
 	"encoding/json"
 	"fmt"
 	"os"
@@ -44,6 +45,14 @@ func extractSignature(p *Program, e Executor) ExecSig {
 	}
 	for fv, cv := range e.FreeConst {
 		env.fbind[fv] = constTerm(cv)
+	}
+	if len(e.FreeArg) > 0 && e.Reg != nil {
+		regEnv := newEnv(x, e.Reg.Parent(), 0, false, 0)
+		for fv, v := range e.FreeArg {
+			if t := regEnv.eval(v); t != nil && !t.hasUnknown() {
+				env.fbind[fv] = t
+			}
+		}
 	}
 	env.evalEffects()
 	sig := ExecSig{Name: e.Name}
@@ -209,7 +218,7 @@ func ruleSignatures(c *Ctx, rid string) {
 			// compare with; its signature is recorded so that a reader of the evidence sees it
 			newCmds++
 			c.ok(rid, key+"/not-in-oracle", pos, "command without a row in the oracle table (added after it was written), not compared: "+sig.String())
-		case sig.String() == want:
+		case normSig(sig.String()) == normSig(want):
 			n++
 			c.ok(rid, key, pos, sig.String())
 		case sig.Unknown:
@@ -430,6 +439,25 @@ func ownedBytes(p *Program, v ssa.Value, depth int, seen map[ssa.Value]bool) (bo
 	switch x := v.(type) {
 	case *ssa.Const:
 		return true, ""
+	case *ssa.Parameter:
+		// a setter used by the parser (msg.SetBytes(payload)): what the parser's own calls hand in
+		fn := x.Parent()
+		idx := -1
+		for i, q := range fn.Params {
+			if q == x {
+				idx = i
+			}
+		}
+		inParser := scopeSet(p.parserScope())
+		for _, site := range p.staticCallSites(fn) {
+			if !inParser[site.Parent()] || site.Parent() == fn || idx < 0 || idx >= len(site.Common().Args) {
+				continue
+			}
+			if ok, why := ownedBytes(p, site.Common().Args[idx], depth+1, seen); !ok {
+				return false, why
+			}
+		}
+		return true, ""
 	case *ssa.MakeSlice:
 		return true, ""
 	case *ssa.Alloc:
@@ -486,4 +514,24 @@ func ownedBytes(p *Program, v ssa.Value, depth int, seen map[ssa.Value]bool) (bo
 		return false, "comes from " + n + ", whose ownership the rule does not know"
 	}
 	return false, "has an origin the rule does not recognise: " + v.String()
+}
+
+// normSig: a struct field that is set only under an option keyword has its zero value
+// otherwise, whether the code writes the zero explicitly (Field: false) or leaves it to the
+// composite literal. Both spellings are rendered alike before signatures are compared; a
+// non-zero default (Count: -1) stays part of the signature.
+var zeroDefaultBeforeKw = regexp.MustCompile(`:(false|0|""|nil|zero)\|kw\[`)
+
+// a flag assigned "the option word is F" is the flag set under keyword F
+var flagByComparison = regexp.MustCompile(`\b([A-Z]+):eq\(upper\(A\*1\),"([A-Z]+)"\)`)
+
+func normSig(s string) string {
+	s = zeroDefaultBeforeKw.ReplaceAllString(s, ":kw[")
+	return flagByComparison.ReplaceAllStringFunc(s, func(m string) string {
+		sub := flagByComparison.FindStringSubmatch(m)
+		if len(sub) == 3 && sub[1] == sub[2] {
+			return sub[1] + ":kw[" + sub[1] + "](true)"
+		}
+		return m
+	})
 }
